@@ -368,6 +368,9 @@ func c04R5(c *Ctx, p *Prog, rule string) {
 	n := 0
 	for _, g := range []string{"board.piecesRand", "board.stmRand", "board.castlingRand", "board.epFileRand", "board.hashEnable"} {
 		if !p.hasGlobal(g) {
+			if g == "board.hashEnable" {
+				continue // an implementation detail of the branch-free toggles, not a key table
+			}
 			c.Anchor(rule, g)
 			continue
 		}
@@ -375,7 +378,7 @@ func c04R5(c *Ctx, p *Prog, rule string) {
 		c.Check(len(out) == 0, rule, "immutable:"+g, p.globalPos(g), "%s has no writer outside package initialisation %v", g, out)
 		n++
 	}
-	c.Floor(rule, n, 5, "Zobrist tables")
+	c.Floor(rule, n, 4, "Zobrist tables")
 }
 
 func (p *Prog) hasGlobal(name string) bool {
@@ -876,6 +879,62 @@ func c04R4(c *Ctx, p *Prog, rule string) {
 						fr, isF := asFieldAddr(ia.X)
 						return isF && fr.Name() == "Board.Colors" && sameValue(stripConv(ia.Index), col, 0)
 					})
+				}
+			}
+			// other enumeration: all squares, the key xor-ed under `Colors[colour] & (1<<sq) != 0`
+			if !ok && len(t.Idx) == 3 && t.Xor != nil {
+				sq, col := stripConv(t.Idx[2]), stripConv(t.Idx[0])
+				okPiece := false
+				if ld, isLd := stripConv(t.Idx[1]).(*ssa.UnOp); isLd && ld.Op == token.MUL {
+					if ia, isIA := ld.X.(*ssa.IndexAddr); isIA && sameValue(stripConv(ia.Index), sq, 0) {
+						if fr, isF := asFieldAddr(ia.X); isF && fr.Name() == "Board.SquaresToPiece" {
+							okPiece = true
+						}
+					}
+				}
+				// `for sq, piece := range b.SquaresToPiece`: element of a copy of the array at the same index
+				if ix, isIx := stripConv(t.Idx[1]).(*ssa.Index); isIx && sameValue(stripConv(ix.Index), sq, 0) {
+					if l, isLd := ix.X.(*ssa.UnOp); isLd && l.Op == token.MUL {
+						if fr, isF := asFieldAddr(l.X); isF && fr.Name() == "Board.SquaresToPiece" {
+							okPiece = true
+						}
+					}
+				}
+				member := false
+				for _, ce := range controllingConds(t.Xor.Block()) {
+					bo, isB := ce.Cond.(*ssa.BinOp)
+					if !isB || !((bo.Op == token.NEQ && ce.True) || (bo.Op == token.EQL && !ce.True)) {
+						continue
+					}
+					if z, isc := constOf(bo.Y); !isc || z != 0 {
+						continue
+					}
+					and, isAnd := stripConv(bo.X).(*ssa.BinOp)
+					if !isAnd || and.Op != token.AND {
+						continue
+					}
+					for _, pr := range [][2]ssa.Value{{and.X, and.Y}, {and.Y, and.X}} {
+						l, isLd := stripConv(pr[0]).(*ssa.UnOp)
+						if !isLd || l.Op != token.MUL {
+							continue
+						}
+						ia, isIA := l.X.(*ssa.IndexAddr)
+						if !isIA || !sameValue(stripConv(ia.Index), col, 0) {
+							continue
+						}
+						if fr, isF := asFieldAddr(ia.X); !isF || fr.Name() != "Board.Colors" {
+							continue
+						}
+						if isOneShl(pr[1], sq) {
+							member = true
+						}
+					}
+				}
+				if okPiece && member {
+					ok = true
+				} else if !okPiece || !member {
+					c.Undec(rule, key, t.Val.Pos(), "the (colour, piece, square) triple of a piece key is enumerated in a way this rule does not recognise")
+					continue
 				}
 			}
 			c.Check(ok, rule, key, t.Val.Pos(), "piece key is piecesRand[colour][SquaresToPiece[sq]][sq] for sq ranging over Colors[colour] — the same (colour, piece, square) triple addPiece/removePiece return")
